@@ -84,6 +84,34 @@ pub mod verif {
                 .map(|(k, v)| (k.to_vec(), v.to_vec()))
                 .collect()
         }
+        /// As `open`, with a tx-pool overlay shared by the indexer (`append` removes the inputs of
+        /// committed transactions from it) and by the handles made with `handle_with_pool`.
+        pub fn open_with_pool<P: AsRef<Path>>(
+            path: P,
+            keep_num: u64,
+            prune_interval: u64,
+        ) -> (Self, std::sync::Arc<std::sync::RwLock<ckb_indexer_sync::Pool>>) {
+            let pool = std::sync::Arc::new(std::sync::RwLock::new(
+                ckb_indexer_sync::Pool::default(),
+            ));
+            let store = RocksdbStore::new(&RocksdbStore::default_options(), path);
+            let indexer = Indexer::new(
+                store.clone(),
+                keep_num,
+                prune_interval,
+                Some(std::sync::Arc::clone(&pool)),
+                CustomFilters::new(None, None),
+            );
+            (Self { indexer, store }, pool)
+        }
+        /// The RPC handle over the same store with the given pool overlay.
+        pub fn handle_with_pool(
+            &self,
+            pool: std::sync::Arc<std::sync::RwLock<ckb_indexer_sync::Pool>>,
+            request_limit: usize,
+        ) -> IndexerHandle {
+            IndexerHandle::verif_new_with_pool(self.store.clone(), pool, request_limit)
+        }
         /// The RPC handle over the same store (no pool overlay).
         pub fn handle(&self, request_limit: usize) -> IndexerHandle {
             IndexerHandle::verif_new(self.store.clone(), request_limit)
